@@ -2,6 +2,7 @@
    Property statements only; proofs live in Proofs/MaskerProofs.v and Proofs/WsSendProofs.v. *)
 From Coq Require Import NArith List.
 From AV Require Import Model.Masker Proofs.MaskerProofs.
+From AV Require Import Model.WsFrame Model.WsSend Proofs.WsSendProofs.
 Import ListNotations.
 Open Scope N_scope.
 
@@ -57,6 +58,43 @@ Print Assumptions C15_bytes_closed.
 Theorem C15_length : forall k p d, length (xor_spec k p d) = length d.
 Proof. exact xor_spec_length. Qed.
 Print Assumptions C15_length.
+
+(* ---- role policy: the model of sendFrame (Model/WsSend.v build_frame), tied to the code by the C01 run ----
+   [ks] is the stream of keys random.getrandbits(32) yields, [nk] the number of keys drawn so far. *)
+(* a client frame (maskClientFrames, the default) has the MASK bit, carries the NEXT key of the stream, consumes
+   exactly one key, and its payload is xor_spec with that key from offset 0 *)
+Theorem C15_role_policy_client : forall c ks nk op pl fin rsv,
+  is_server c = false -> mask_client_frames c = true -> apply_mask c = true -> keys_ok ks ->
+  rsv < 8 -> op < 16 -> lenN pl <= max_len ->
+  build_frame c ks nk op pl fin rsv [] None =
+    FrOk (encode_header fin rsv op (Some (ks nk)) (lenN pl) ++ xor_spec (ks nk) 0 pl) (S nk).
+Proof. exact role_policy_client. Qed.
+Print Assumptions C15_role_policy_client.
+
+(* a server frame (maskServerFrames off, the default) has no MASK bit, its payload is unchanged, no key is drawn *)
+Theorem C15_role_policy_server : forall c ks nk op pl fin rsv,
+  is_server c = true -> mask_server_frames c = false -> apply_mask c = true -> keys_ok ks ->
+  rsv < 8 -> op < 16 -> lenN pl <= max_len ->
+  build_frame c ks nk op pl fin rsv [] None = FrOk (encode_header fin rsv op None (lenN pl) ++ pl) nk.
+Proof. exact role_policy_server. Qed.
+Print Assumptions C15_role_policy_server.
+
+(* what "has the MASK bit" means on the wire: second octet >= 128 and the 4 key octets end the header *)
+Theorem C15_header_mask_bit : forall fin rsv op k n, exists b0 l7 rest,
+  encode_header fin rsv op (Some k) n = b0 :: (128 + l7) :: rest ++ k /\ l7 < 128.
+Proof. exact header_mask_bit. Qed.
+Print Assumptions C15_header_mask_bit.
+
+Theorem C15_header_no_mask_bit : forall fin rsv op n, exists b0 l7 rest,
+  encode_header fin rsv op None n = b0 :: l7 :: rest /\ l7 < 128.
+Proof. exact header_no_mask_bit. Qed.
+Print Assumptions C15_header_no_mask_bit.
+
+(* the default configurations meet the hypotheses *)
+Example C15_defaults_meet_policy :
+  is_server (default_cfg false) = false /\ mask_client_frames (default_cfg false) = true /\ apply_mask (default_cfg false) = true /\
+  is_server (default_cfg true) = true /\ mask_server_frames (default_cfg true) = false /\ apply_mask (default_cfg true) = true.
+Proof. vm_compute. repeat split. Qed.
 
 (* non-vacuity: a 40-octet payload, misaligned by 5, offset 3, through the SIMD path *)
 Example C15_witness :
